@@ -49,6 +49,10 @@ class HistGen:
         self.tables = rng.choice([[], [], ['t1'], ['t1', 't2']])
         # an "address family": one author and kind, and a set of confusable identifiers; most
         # stores of a C09 history stay inside it so that neighbouring addresses really collide
+        self.far_future = []
+        if rng.random() < (0.35 if focus == 'C09' else 0.1):
+            now = int(time.time())
+            self.far_future = [now + 10 ** 6, now + 2 * 10 ** 6, now + 2 * 10 ** 6 + 1, U64MAX]
         self.family = None
         if focus in ('C09',) or rng.random() < (0.6 if focus in ('C12', 'C05') else 0.25):
             kind = rng.choice([30000, 30000, 39999, 30023, 10000, 0, 3, 19999])
@@ -153,7 +157,11 @@ class HistGen:
             tags = [[b't', b'a'], [b'd', d]]
         if rng.random() < 0.15:
             tags = []
-        return self.new_event(kind=kind, pk=pk, tags=tags, t=rng.choice([100, 100, 150, 200, 200, 1000, 0]),
+        ts = [100, 100, 150, 200, 200, 1000, 0]
+        if self.far_future:
+            # created_at comes from the author's clock: versions dated AFTER the relay's "now" are ordinary inputs
+            ts = ts[:3] + self.far_future + self.far_future
+        return self.new_event(kind=kind, pk=pk, tags=tags, t=rng.choice(ts),
                               content=rng.choice([b'', b'v1', b'v2']))
 
     def deletion(self, abs_, pk=None):
